@@ -38,7 +38,7 @@ LEVEL_NOTE = ("OpenSSL's RNG cannot be seeded through the ssl module: wire "
               "list, no record_size_limit, no TLS 1.3 suite selection: those "
               "dimensions are outside this check.  OpenSSL 3.0 here has no "
               "RC4/3DES/MD5/SSLv3.")
-BUDGET = {"quick": 75, "thorough": 1500}
+BUDGET = {"quick": 300, "thorough": 1500}
 CHUNK = 4
 DETERMINISM = {"quick": 4, "thorough": 20}
 PROBES = ["tlslite_client", "tlslite_server", "tls10", "tls11", "tls12",
